@@ -206,7 +206,53 @@ def build(rsome, spec):
 
     if spec.get('obj_first', True):
         declare_obj()
-    for row in spec['rows']:
+    rows_iter = spec['rows']
+    if spec.get('vec'):
+        # rows sharing (set, sense) are written as ONE array-valued constraint
+        groups = {}
+        for row in spec['rows']:
+            groups.setdefault((row.get('set'), row['sense'], row.get('attach', 'list')), []).append(row)
+        rows_iter = []
+        for (name, sense, attach), grp in groups.items():
+            R = len(grp)
+            AX = np.array([r.get('ax', [0.0] * nx) for r in grp], float)
+            CZ = np.array([r.get('cz', [0.0] * d) for r in grp], float)
+            c0 = np.array([r.get('c0', 0.0) for r in grp], float)
+            G = AX @ x + c0
+            for i in range(d):
+                Mi = np.array([np.array(r.get('Az', np.zeros((d, nx))), float).reshape(d, nx)[i] for r in grp])
+                if Mi.any():
+                    G = G + z[i] * (Mi @ x)
+            if ny:
+                BY = np.array([r.get('by', [0.0] * ny) for r in grp], float)
+                if BY.any():
+                    G = G + BY @ b.y
+            if CZ.any():
+                G = G + CZ @ z
+            con = (G <= 0) if sense == '<=' else (G >= 0) if sense == '>=' else (G == 0)
+            if name is not None and hasattr(con, 'forall'):
+                cs = get_set(name)
+                con = con.forall(cs) if attach == 'list' else con.forall(*cs)
+            m.st(con)
+            b.ops += 4 + R
+    if spec.get('pw') and not spec.get('vec'):
+        # rows sharing (set, sense) are written as ONE piecewise constraint  maxof(g1, g2, ..) <= 0 / minof(..) >= 0
+        groups = {}
+        for row in spec['rows']:
+            groups.setdefault((row.get('set'), row['sense'], row.get('attach', 'list')), []).append(row)
+        rows_iter = []
+        for (name, sense, attach), grp in groups.items():
+            if sense == '==' or len(grp) < 2:
+                rows_iter += grp
+                continue
+            gs = [_expr(rso, b, r, r.get('style', 'A')) for r in grp]
+            con = (rso.maxof(*gs) <= 0) if sense == '<=' else (rso.minof(*gs) >= 0)
+            if name is not None:
+                cs = get_set(name)
+                con = con.forall(cs) if attach == 'list' else con.forall(*cs)
+            m.st(con)
+            b.ops += 3 + len(grp)
+    for row in rows_iter:
         g = _expr(rso, b, row, row.get('style', 'A'))
         if row.get('split'):
             # move the constant and random part to the right-hand side
